@@ -43,3 +43,36 @@ Example roundtrip_computed :
   | _ => False
   end.
 Proof. vm_compute. split; reflexivity. Qed.
+
+(* non-vacuity of the chunk-semantics theorem of the segment loop (C01/Proofs_Segments.v): a
+   script with a zero-length read, a piece straddling two segments and data with EOF; the
+   segment function records position and last flag *)
+Example segment_loop_ex :
+  let fn := fun (d : list N) (i : N) (l : bool) => Some (d ++ [(100 + i)%N; if l then 1%N else 0%N])%list in
+  let sc := [Zero; Data [1; 2; 3]%N; DataEOF [4; 5]%N] in
+  0 < 2 /\ ends_eof sc = true /\
+  process_segments 2 fn sc = ([1; 2; 100; 0; 3; 4; 101; 0; 5; 102; 1]%N, SClean) /\
+  run_chunks fn 0%N (chunks 2 (data_of sc)) [] = ([1; 2; 100; 0; 3; 4; 101; 0; 5; 102; 1]%N, SClean).
+Proof. vm_compute. repeat split; lia. Qed.
+
+(* ... and of its source-failure twin: only the pieces followed by at least one more byte are
+   processed *)
+Example segment_loop_fail_ex :
+  let fn := fun (d : list N) (i : N) (l : bool) => Some (d ++ [(100 + i)%N; if l then 1%N else 0%N])%list in
+  let sc := [Data [1; 2; 3]%N; Zero; Data [4; 5]%N; Fail] in
+  ends_eof sc = false /\
+  process_segments 2 fn sc = ([1; 2; 100; 0; 3; 4; 101; 0]%N, SSrcFail).
+Proof. vm_compute. split; reflexivity. Qed.
+
+(* hypotheses of decrypt_accepts_spec on a document made by the README-only encoder *)
+Example accepts_hypotheses_satisfiable :
+  let d := encrypt_doc concrete 2 ex_m ex_fk [1; 2; 3; 4; 5]%N in
+  manifest_bytes_ok ex_m /\ manifest_valid ex_m = true /\
+  ends_eof [Data (firstn 50 d); DataEOF (skipn 50 d)] = true /\
+  data_of [Data (firstn 50 d); DataEOF (skipn 50 d)] = d /\
+  List.length (spec_header concrete ex_fk (manifest_json concrete ex_m)) <= 400 /\
+  dec_key_name (str "override") ex_m <> [] /\ List.length ex_fk = 32.
+Proof.
+  cbv zeta. repeat split; try (vm_compute; reflexivity); try (vm_compute; discriminate);
+    try (apply Nat.leb_le; vm_compute; reflexivity).
+Qed.
